@@ -33,14 +33,15 @@ impl WorkspaceGraph {
             node_map: &FxHashMap<DefId, NodeIndex>,
             ty: &ty::Ty,
         ) {
+            // every type that can hold a path: the same set `ty::walk_ty` (PathCollector) follows
             match &ty.kind {
                 ty::Path(p) => {
                     graph.add_edge(idx, node_map[&p.did], ());
                 }
-                ty::Vec(ty) | ty::Set(ty) => {
+                ty::Vec(ty) | ty::Set(ty) | ty::BTreeSet(ty) | ty::Arc(ty) => {
                     visit(graph, idx, node_map, ty);
                 }
-                ty::Map(ty1, ty2) => {
+                ty::Map(ty1, ty2) | ty::BTreeMap(ty1, ty2) => {
                     visit(graph, idx, node_map, ty1);
                     visit(graph, idx, node_map, ty2);
                 }
